@@ -20,6 +20,8 @@ import (
 
 	"google.golang.org/grpc/codes"
 	"google.golang.org/grpc/status"
+	"google.golang.org/protobuf/types/known/anypb"
+	"google.golang.org/protobuf/types/known/durationpb"
 	"google.golang.org/protobuf/types/known/emptypb"
 	"google.golang.org/protobuf/types/known/timestamppb"
 
@@ -291,16 +293,67 @@ func (d *driver) drain() {
 func (d *driver) block(what string) bool {
 	t := time.NewTimer(watchdog)
 	defer t.Stop()
-	select {
-	case e := <-d.m.evCh:
-		d.handle(e)
-		return true
-	case <-t.C:
-		buf := make([]byte, 1<<20)
-		buf = buf[:runtime.Stack(buf, true)]
-		d.inconclusive = fmt.Sprintf("watchdog while waiting for %s (no oracle decided); goroutines:\n%s", what, tail(string(buf), 6000))
+	// The poll only decides *when* to look; the verdict of the hang check
+	// comes from the goroutine dump and the executor's context.
+	poll := time.NewTicker(300 * time.Millisecond)
+	defer poll.Stop()
+	for {
+		select {
+		case e := <-d.m.evCh:
+			d.handle(e)
+			return true
+		case <-poll.C:
+			if d.stuckInStopExecution() {
+				return false
+			}
+		case <-t.C:
+			buf := make([]byte, 1<<20)
+			buf = buf[:runtime.Stack(buf, true)]
+			d.inconclusive = fmt.Sprintf("watchdog while waiting for %s (no oracle decided); goroutines:\n%s", what, tail(string(buf), 6000))
+			return false
+		}
+	}
+}
+
+// stuckInStopExecution implements the hang policy for pre-emption: the
+// scheduler replaced the running action (idle / another action), the client
+// is already past its cancellation call and blocked draining the update
+// channel in stopExecution, yet the context it handed to Execute is not
+// cancelled and the (gated) executor only ends on cancellation. Nothing can
+// release that: the worker neither cancels the action nor goes idle, and it
+// has stopped synchronizing.
+func (d *driver) stuckInStopExecution() bool {
+	d.m.mu.Lock()
+	e := d.m.preemptedButNotCancelled()
+	d.m.mu.Unlock()
+	if e == nil {
 		return false
 	}
+	if v := d.view(e); v.busy || v.cancel {
+		return false
+	}
+	buf := make([]byte, 1<<20)
+	buf = buf[:runtime.Stack(buf, true)]
+	var stuck string
+	for _, g := range strings.Split(string(buf), "\n\n") {
+		if strings.Contains(g, "(*BuildClient).stopExecution") && strings.Contains(strings.SplitN(g, "\n", 2)[0], "chan receive") {
+			stuck = g
+		}
+	}
+	if stuck == "" || e.ctx.Err() != nil {
+		return false
+	}
+	d.m.mu.Lock()
+	d.m.logf("HANG: execution %d pre-empted, client drains in stopExecution, Execute's context never cancelled", e.id)
+	trace := "without"
+	if e.trace {
+		trace = "with"
+	}
+	d.m.violation("preempted-action-never-cancelled trace-context="+trace,
+		fmt.Sprintf("the scheduler replaced execution %d, but the context given to its Execute call was not cancelled; BuildClient.Run is blocked forever in stopExecution waiting for the action to end by itself:\n%s", e.id, tail(stuck, 1500)))
+	d.m.mu.Unlock()
+	d.terminated = true // give up on this case; teardown releases everything
+	return false
 }
 
 func tail(s string, n int) string {
@@ -656,12 +709,39 @@ func (d *driver) newExec(sameAs *execRec, invalid bool) (*execRec, *remoteworker
 		sum := sha256.Sum256([]byte(fmt.Sprintf("c08-%d-%d-%d", d.cfg.Base, d.cfg.Variant, d.nextID)))
 		dg = &remoteexecution.Digest{Hash: hex.EncodeToString(sum[:]), SizeBytes: int64(100 + d.nextID)}
 	}
+	// Vary every optional field of the instruction.
+	rng := d.rng
 	req := &remoteworker.DesiredState_Executing{
 		ActionDigest:       dg,
 		Action:             &remoteexecution.Action{DoNotCache: d.nextID%3 == 0},
-		QueuedTimestamp:    timestamppb.New(d.clk.Now()),
-		InstanceNameSuffix: "suffix",
-		DigestFunction:     remoteexecution.DigestFunction_SHA256,
+		InstanceNameSuffix: []string{"suffix", "", "a/b/c"}[rng.IntN(3)],
+		DigestFunction: []remoteexecution.DigestFunction_Value{remoteexecution.DigestFunction_SHA256, remoteexecution.DigestFunction_SHA1,
+			remoteexecution.DigestFunction_MD5, remoteexecution.DigestFunction_SHA384, remoteexecution.DigestFunction_SHA512}[rng.IntN(5)],
+	}
+	if rng.IntN(4) != 0 {
+		req.QueuedTimestamp = timestamppb.New(d.clk.Now().Add(-time.Duration(rng.IntN(100)) * time.Second))
+	}
+	if rng.IntN(2) == 0 {
+		req.Action.Timeout = durationpb.New(time.Duration(rng.IntN(3600)) * time.Second)
+	}
+	switch rng.IntN(4) {
+	case 0:
+		req.W3CTraceContext = map[string]string{"traceparent": fmt.Sprintf("00-%032x-%016x-01", uint64(d.nextID)+1, uint64(d.cfg.Base)+1)}
+	case 1:
+		req.W3CTraceContext = map[string]string{
+			"traceparent": fmt.Sprintf("00-%032x-%016x-00", uint64(d.nextID)+7, uint64(d.cfg.Base)+3),
+			"tracestate":  "vendor=opaque,other=1",
+			"baggage":     "k=v",
+		}
+	case 2:
+		if rng.IntN(2) == 0 {
+			req.W3CTraceContext = map[string]string{"traceparent": "not a valid traceparent"}
+		}
+	}
+	if rng.IntN(3) == 0 {
+		if a, err := anypb.New(&remoteexecution.RequestMetadata{ToolInvocationId: fmt.Sprintf("inv-%d", d.nextID)}); err == nil {
+			req.AuxiliaryMetadata = append(req.AuxiliaryMetadata, a)
+		}
 	}
 	if invalid {
 		if d.nextID%2 == 0 {
@@ -671,7 +751,7 @@ func (d *driver) newExec(sameAs *execRec, invalid bool) (*execRec, *remoteworker
 		}
 		return nil, req
 	}
-	rec := &execRec{id: d.nextID, digest: dg, request: req, cmd: make(chan execCmd)}
+	rec := &execRec{id: d.nextID, digest: dg, request: req, cmd: make(chan execCmd), trace: len(req.W3CTraceContext) > 0}
 	d.m.mu.Lock()
 	d.m.execs = append(d.m.execs, rec)
 	d.m.byReq[req] = rec
